@@ -450,6 +450,16 @@ fn capi_op(tok: &str) -> String {
                 arr.copy_from_slice(&bytes);
                 format!("{}", dmd_set_nvram(&arr))
             }
+            "snap" => match verif_global_duart_snapshot() {
+                Some(v) => {
+                    let mut s = String::from("D");
+                    for (i, x) in v.iter().enumerate() {
+                        let _ = write!(s, "{}{}", if i == 0 { ":" } else { "," }, x);
+                    }
+                    s
+                }
+                None => "poisoned".into(),
+            },
             "nvget" => {
                 let mut arr = [0x5au8; 8192];
                 let rc = dmd_get_nvram(&mut arr);
@@ -536,10 +546,18 @@ fn main() {
             // concurrent C-API case: T <seed> <thread specs separated by '/'>
             clock::set_ns(0);
             let seed = hx(toks[2]);
-            let rest = toks[3..].join("");
+            let version = hx(toks[3]) as u8;
+            unsafe {
+                dmd_init(version);
+            }
+            let rest = toks[4..].join("");
             let spec: Vec<&str> = rest.split('/').collect();
+            // `T <seed> <version> <threads>`: the machine is reset first, on this thread, and a snapshot is taken
+            // before the threads start and after they have all finished
+            let pre = capi_op("snap");
             let s = capi_threads(&spec, seed);
-            writeln!(out, "{} {}", id, s).unwrap();
+            let snap = capi_op("snap");
+            writeln!(out, "{} {} / {} / {}", id, pre, s, snap).unwrap();
             continue;
         }
         clock::set_ns(0);
